@@ -6,13 +6,11 @@
     C16 (model/C16_Model.v: [backend_bipartite], [hypergraph_to_species_graph]), exactly what
     _CRNGraphBackend._build_graph calls — so the statement is about the graph object handed out. *)
 From stdpp Require Import gmap strings sets pretty.
-From SK Require Import lib.Tok model.C15_Model model.C15_Ext model.C15_View proof.C15_View model.C16_Model.
+From SK Require Import lib.Tok model.C15_Model model.C15_Ext model.C15_View proof.C15_View model.C16_Model model.C15_ViewObs.
 Local Open Scope string_scope.
 
-(** the graph _CRNGraphBackend._build_graph builds from a store *)
-Definition view_graph (o : vopts) (s : net) : bgraph + sgraph :=
-  if include_rule o then inl (backend_bipartite (integer_ids o) (include_stoich o) s)
-  else inr (hypergraph_to_species_graph false s).
+(** [view_graph o s] (model/C15_ViewObs.v) = the graph _CRNGraphBackend._build_graph builds from a store; it is what the
+    correspondence compares with the graph object handed out ([step3g]) *)
 
 (** the exports never read the per-rule id counters: stores with the same content export to the same graph *)
 Lemma same_content_bipartite fl s s' : same_content s s' → hypergraph_to_bipartite fl s' = hypergraph_to_bipartite fl s.
@@ -119,3 +117,12 @@ Example ex_view_graph_nonvacuous :
   tsgraph exg_sg = tsgraph (hypergraph_to_species_graph false (getn (nets (w2 exg_w)) 0)) ∧
   tbgraph exg_bg = tbgraph (backend_bipartite true true (getn (nets (w2 exg_w)) 0)).
 Proof. split_and!; by vm_compute. Qed.
+
+(** the observed run is the run of model/C15_View.v: same worlds, same errors; a view answer = the answer of [step3]
+    followed by the graph built from the cached snapshot *)
+Lemma step3g_spec w o : (step3g w o).1 = (step3 w o).1 ∧
+  match o with
+  | OView b => (step3g w o).2 = L [(step3 w o).2; tview (view_graph (b_opts (getb (backends w) b)) (access w b).2)]
+  | _ => (step3g w o).2 = (step3 w o).2
+  end.
+Proof. unfold step3g. destruct (step3 w o) as [[w' er] a]. by destruct o. Qed.
